@@ -418,10 +418,33 @@ func resolveConfig(toks []string) (ic, it, ig, is int64, err error) {
 	bin := filepath.Join(filepath.Dir(exe), "gostatsd-verif")
 	args := []string{"--verif-dump-config", "--backends", "stdout"}
 	names := []string{"expiry-interval", "expiry-interval-counter", "expiry-interval-timer", "expiry-interval-gauge", "expiry-interval-set"}
+	// where the settings come from is part of the start-up code under test: command-line flags, the configuration
+	// file (--config-path), or the main interval from the file and the per-type ones from flags; the case's text picks one
+	h := 0
+	for _, b := range []byte(key) {
+		h = (h*31 + int(b)) % 9973
+	}
+	mode := h % 3
+	var file strings.Builder
 	for i, t := range toks {
-		if t != "-" {
+		if t == "-" {
+			continue
+		}
+		if mode == 1 || (mode == 2 && i == 0) {
+			fmt.Fprintf(&file, "%s = '%sns'\n", names[i], t)
+		} else {
 			args = append(args, fmt.Sprintf("--%s=%sns", names[i], t))
 		}
+	}
+	if file.Len() > 0 {
+		f, ferr := os.CreateTemp("", "c09-config-*.toml")
+		if ferr != nil {
+			return 0, 0, 0, 0, ferr
+		}
+		defer os.Remove(f.Name())
+		_, _ = f.WriteString(file.String())
+		f.Close()
+		args = append(args, "--config-path", f.Name())
 	}
 	outB, e := exec.Command(bin, args...).CombinedOutput()
 	if e != nil {
